@@ -310,6 +310,9 @@ func parseStrace(log, dir string) []string {
 		base := filepath.Base(args[i+1 : i+k])
 		args = strings.TrimSuffix(strings.TrimSpace(args), ")")
 		fields := strings.Split(args, ", ")
+		for fi := range fields {
+			fields[fi] = strings.TrimSpace(fields[fi])
+		}
 		last := func(n int) string {
 			if len(fields) >= n {
 				return strings.TrimSuffix(fields[len(fields)-n], ")")
